@@ -877,6 +877,8 @@ class LoadConst(DataflowOp):
                 return tys.ConstKind(self.type_)
             case OutPort(_, 0):
                 return tys.ValueKind(self.type_)
+            case _ if port.offset == -1:
+                return tys.OrderKind()
             case _:
                 raise self._invalid_port(port)
 
@@ -1308,6 +1310,8 @@ class LoadFunc(_CallOrLoad, DataflowOp):
                 return tys.FunctionKind(self.signature)
             case OutPort(_, 0):
                 return tys.ValueKind(self.instantiation)
+            case _ if port.offset == -1:
+                return tys.OrderKind()
             case _:
                 raise self._invalid_port(port)
 
